@@ -1048,6 +1048,8 @@ impl<W: Write> Interp<W> {
             "eq" | "ne" => {
                 let o = n(op, "o");
                 ev.insert("o".into(), json!(o));
+                // twin: the two queues are a source and its clone that went through the same operations
+                ev.insert("twin".into(), json!(b(op, "twin")));
                 let a = self.qs.get(&qid).expect("harness: eq of missing queue");
                 let bq = self.qs.get(&o).expect("harness: eq of missing queue");
                 let r = catch_unwind(AssertUnwindSafe(|| match (a, bq) {
